@@ -547,7 +547,11 @@ func (f *frame) mergeState(cond *Term, a, b State) State {
 		if !ok {
 			vb = f.c.heapVar(b, k, va.Sort)
 		}
-		out[k] = Ite(cond, va, vb)
+		if va == vb {
+			out[k] = va
+		} else {
+			out[k] = f.c.nameIfBig(k, Ite(cond, va, vb))
+		}
 	}
 	for _, k := range sortedKeys(b) {
 		if _, ok := out[k]; !ok {
@@ -605,6 +609,9 @@ func (f *frame) mergeInto(b *ssa.BasicBlock) (*Term, State) {
 }
 
 func (f *frame) setEdge(from, to *ssa.BasicBlock, cond *Term, st State) {
+	for _, h := range sortedKeys(st) {
+		st[h] = f.c.nameIfBig(h, st[h])
+	}
 	k := [2]int{from.Index, to.Index}
 	if old, ok := f.edge[k]; ok {
 		cond = Or(old, cond)
@@ -818,9 +825,30 @@ func (f *frame) execInstr(instr ssa.Instruction, pc *Term, st State) {
 	case *ssa.Go:
 		f.goStmt(x, pc, st)
 	case *ssa.Send:
-		f.c.note("channel send in " + funcKey(f.fn) + " treated as no-op")
+		// blocking send on a buffered channel: completes when there is room
+		ch := f.get(x.Chan)
+		n := f.chanLen(ch, st).T
+		c.addHyp(Implies(pc, c.cmp(token.LSS, n, f.chanCap(ch), true)))
+		st["Chan$len"] = Store(st["Chan$len"], ch.T, c.arith(token.ADD, n, c.idxConst(1), types.Typ[types.Int]))
+		c.note("channels are modelled as counters (len/cap); element values are not tracked")
 	case *ssa.Select:
-		f.define(x, f.freshVal(x.Name(), x.Type(), st))
+		if !x.Blocking && len(x.States) == 1 && x.States[0].Dir == types.SendOnly {
+			// select { case ch <- v: ...; default: ... }: the send happens iff the buffer has room
+			ch := f.get(x.States[0].Chan)
+			n := f.chanLen(ch, st).T
+			ok := c.fresh("select_sent", BoolSort)
+			c.addHyp(Eq(ok, c.cmp(token.LSS, n, f.chanCap(ch), true)))
+			st["Chan$len"] = Store(st["Chan$len"], ch.T, Ite(ok, c.arith(token.ADD, n, c.idxConst(1), types.Typ[types.Int]), n))
+			c.note("non-blocking send on a buffered channel succeeds iff len < cap (no receiver is parked on a semaphore channel)")
+			tup := x.Type().(*types.Tuple)
+			vs := []Val{{T: Ite(ok, c.idxConst(0), c.intConst(big.NewInt(-1), types.Typ[types.Int])), Typ: types.Typ[types.Int]}, {T: False, Typ: types.Typ[types.Bool]}}
+			for i := 2; i < tup.Len(); i++ {
+				vs = append(vs, f.freshVal("select_recv", tup.At(i).Type(), st))
+			}
+			f.vals[x] = Val{Tuple: vs, Typ: x.Type()}
+			break
+		}
+		f.vals[x] = f.freshVal(x.Name(), x.Type(), st)
 		f.c.note("select in " + funcKey(f.fn) + " returns an arbitrary case")
 	default:
 		panic(fmt.Sprintf("unsupported instruction %T: %s", instr, instr))
@@ -978,7 +1006,10 @@ func (f *frame) unop(x *ssa.UnOp, pc *Term, st State) Val {
 		w, _, _ := intInfo(x.Type())
 		return Val{T: mk("-", IntSort, BigIntLit(new(big.Int).Sub(new(big.Int).Lsh(big.NewInt(1), uint(w)), big.NewInt(1))), a.T), Typ: x.Type()}
 	case token.ARROW:
-		c.note("channel receive in " + funcKey(f.fn) + " returns an arbitrary value")
+		c.note("channel receive returns an arbitrary value; completes when the channel is non-empty")
+		n := f.chanLen(a, st).T
+		c.addHyp(Implies(pc, c.cmp(token.GTR, n, c.idxConst(0), true)))
+		st["Chan$len"] = Store(st["Chan$len"], a.T, c.arith(token.SUB, n, c.idxConst(1), types.Typ[types.Int]))
 		return f.freshVal(x.Name(), x.Type(), st)
 	}
 	panic("unop " + x.Op.String())
